@@ -179,7 +179,7 @@ PROPERTY_INFO = {
     "C05": info("exploration",
                 GEN_RULE + "non-trivial = the history grew or shrank column storage (reserve, shrink_to_fit, batch adoption, shape change); the arena auditor, red zones, poison and the dump/allocator cross-check run on every operation; distinct = distinct operation lists",
                 ["reserve", "shrink_to_fit", "extend", "entry_add_shape_change"],
-                ["reserve", "shrink_to_fit", "extend", "entry_add_shape_change", "world_has_empty_archetype", "query_mutating", "entries_sub_query", "ragged_batch_refused", "corrupt_rejected_after_constructing_values", "corrupt_accepted", "fault_fired"]),
+                ["reserve", "shrink_to_fit", "extend", "entry_add_shape_change", "world_has_empty_archetype", "query_mutating", "entries_sub_query", "ragged_batch_refused", "reserve_overflow_refused", "world_has_more_than_131072_slots", "corrupt_rejected_after_constructing_values", "corrupt_accepted", "fault_fired"]),
     "C06": info("exploration",
                 GEN_RULE + "non-trivial = at least one round trip or crash+restore of a non-empty world, or a mirrored lock-step operation; distinct = distinct operation lists",
                 ["roundtrip_with_nonempty_free_list", "lockstep_mirrored_op", "crash_restore_from_snapshot", "roundtrip_json", "roundtrip_tokens_compact", "roundtrip_tokens_readable", "roundtrip_tokens_compact_struct_as_seq", "roundtrip_json_value_sorted_keys"],
@@ -188,7 +188,7 @@ PROPERTY_INFO = {
     "C10": info("exploration",
                 GEN_RULE + "non-trivial = a clone or clone_from followed by further operations on either side; distinct = distinct operation lists",
                 ["clone", "clone_from"],
-                ["clone", "clone_from", "clone_from_destination_has_extra_archetypes", "lockstep_mirrored_op", "drop_world", "world_has_more_than_64_archetypes"], crash="C10"),
+                ["clone", "clone_from", "clone_from_destination_has_extra_archetypes", "lockstep_mirrored_op", "drop_world", "world_has_more_than_64_archetypes", "world_has_more_than_128_archetypes", "world_has_more_than_131072_slots"], crash="C10"),
     "C11": info("fault_enumeration",
                 "for each seeded small world (<= 14 operations) and one of five encodings (tokens human-readable, tokens compact, serde_json text, tokens compact with structs as plain sequences, serde_json through `Value` = fields in sorted order), one evaluation = one complete run deserializing the library's own output with one fault "
                 "(delete / duplicate / swap / truncate at every token or byte position, every defined alteration of every token, seeded moves) or a seeded double fault, "
